@@ -83,26 +83,44 @@ def run_task(task):
     info = r['info']
     findings.extend(r['findings'])
     points = 0
+    # midcode variant: the thread is frozen k source lines PAST each of its synchronisation
+    # operations (inside code that contains no synchronisation), for the table manager's own
+    # threads; otherwise on the operation itself, for every thread
+    midcode = bool(task.get('midcode'))
+    played = any(a != 'allpass' for a in shape[1])
+    lines_list = ((2, 5) if played else (1, 2, 3, 4, 6, 9)) if midcode else (None,)
     if not findings:
         for role in info['roles']:
+            if midcode and not (role == 'server' or role.startswith('pt:') or
+                                role.startswith('aux:')):
+                continue
             for idx in range(info['nstable'].get(role, 0)):
-                sched = dict(base)
-                sched['stalls'] = [{'role': role, 'index': idx, 'duration': None,
-                                    'after_kind': None, 'after_n': None, 'after_obj': None}]
-                s1.set_budgets(sched, info)
-                r = isolate.call(s1.exec_run, scn, sched, props, base['label'] + '+stall')
-                s1.merge_stats(st, r['st'])
-                points += 1
-                findings.extend(r['findings'])
+                for lines in lines_list:
+                    sched = dict(base)
+                    sched['stalls'] = [{'role': role, 'index': idx, 'duration': None,
+                                        'after_kind': None, 'after_n': None, 'after_obj': None,
+                                        'lines': lines}]
+                    s1.set_budgets(sched, info)
+                    r = isolate.call(s1.exec_run, scn, sched, props,
+                                     base['label'] + ('+midcode' if midcode else '+stall'))
+                    s1.merge_stats(st, r['st'])
+                    points += 1
+                    findings.extend(r['findings'])
+                    if len(findings) > 30:
+                        break
                 if len(findings) > 30:
                     break
             if len(findings) > 30:
                 break
     st['exhaustive'] = {'shape': {'boards': shape[0], 'auctions': shape[1], 'table': shape[2]},
                         'base_order': oname, 'order': order, 'stall_points_enumerated': points,
-                        'threads': len(info['roles']),
-                        'what': 'every (thread, synchronisation operation) of the fault-free run, '
-                                'that thread frozen there until all else has quiesced'}
+                        'threads': len(info['roles']), 'midcode': midcode,
+                        'what': ('every (table-manager thread, synchronisation operation, k in '
+                                 f'{list(lines_list)}) of the fault-free run: the thread frozen k source '
+                                 'lines past that operation until all else has quiesced')
+                        if midcode else
+                        ('every (thread, synchronisation operation) of the fault-free run, '
+                         'that thread frozen there until all else has quiesced')}
     sample = {'sweep': st['exhaustive']['shape'], 'base_order': oname, 'stall_points': points}
     seen = set()
     keep = []
